@@ -55,18 +55,63 @@ structure Sorter where
   perm : ∀ l, (sort l).Perm l
   sorted : ∀ l, (sort l).Pairwise (fun a b => b.expanded.length ≤ a.expanded.length)
 
-/-- comparison used for the concrete sorter of the driver -/
-def lenGe (a b : Mapping) : Bool := decide (b.expanded.length ≤ a.expanded.length)
+/-- insertion into a list sorted by descending namespace length (before the first entry that is not longer) -/
+def insertByLen (m : Mapping) : List Mapping → List Mapping
+  | [] => [m]
+  | x :: xs => if x.expanded.length ≤ m.expanded.length then m :: x :: xs else x :: insertByLen m xs
 
-/-- the sorter the driver runs (stable merge sort; the harness compares modulo ties) -/
+/-- insertion sort by descending namespace length (stable) -/
+def isort : List Mapping → List Mapping
+  | [] => []
+  | x :: xs => insertByLen x (isort xs)
+
+theorem insertByLen_perm (m : Mapping) (l : List Mapping) : (insertByLen m l).Perm (m :: l) := by
+  induction l with
+  | nil => exact List.Perm.refl _
+  | cons x xs ih =>
+    unfold insertByLen
+    split
+    · exact List.Perm.refl _
+    · exact (List.Perm.cons x ih).trans (List.Perm.swap m x xs)
+
+theorem insertByLen_sorted (m : Mapping) (l : List Mapping)
+    (h : l.Pairwise (fun a b => b.expanded.length ≤ a.expanded.length)) :
+    (insertByLen m l).Pairwise (fun a b => b.expanded.length ≤ a.expanded.length) := by
+  induction l with
+  | nil => simp [insertByLen]
+  | cons x xs ih =>
+    have hx := List.pairwise_cons.mp h
+    unfold insertByLen
+    split
+    · next hle =>
+      refine List.pairwise_cons.mpr ⟨?_, h⟩
+      intro y hy
+      rcases List.mem_cons.mp hy with rfl | hy
+      · exact hle
+      · exact Nat.le_trans (hx.1 y hy) hle
+    · next hlt =>
+      refine List.pairwise_cons.mpr ⟨?_, ih hx.2⟩
+      intro y hy
+      rcases List.mem_cons.mp ((insertByLen_perm m xs).mem_iff.mp hy) with rfl | hy
+      · omega
+      · exact hx.1 y hy
+
+theorem isort_perm (l : List Mapping) : (isort l).Perm l := by
+  induction l with
+  | nil => exact List.Perm.refl _
+  | cons x xs ih => exact (insertByLen_perm x (isort xs)).trans (List.Perm.cons x ih)
+
+theorem isort_sorted (l : List Mapping) :
+    (isort l).Pairwise (fun a b => b.expanded.length ≤ a.expanded.length) := by
+  induction l with
+  | nil => simp [isort]
+  | cons x xs ih => exact insertByLen_sorted x (isort xs) ih
+
+/-- the sorter the driver runs (stable insertion sort; the harness compares modulo ties) -/
 def mergeSorter : Sorter where
-  sort l := l.mergeSort lenGe
-  perm l := List.mergeSort_perm l lenGe
-  sorted l := by
-    have h := List.pairwise_mergeSort (le := lenGe)
-      (by intro a b c; simp only [lenGe, decide_eq_true_eq]; omega)
-      (by intro a b; simp only [lenGe, Bool.or_eq_true, decide_eq_true_eq]; omega) l
-    exact h.imp (by intro a b; simp [lenGe])
+  sort := isort
+  perm := isort_perm
+  sorted := isort_sorted
 
 /-- the inner loop of AddPrefixMappings over `p.ordered` (`p.ordered[i] = mapping; break`) -/
 def replaceFirst (m : Mapping) : List Mapping → List Mapping
@@ -242,6 +287,11 @@ def splitColon (v : Str) : Str × Option Str :=
   | [] => (v, none)
   | _ :: rest => (RFC3986Lite.upTo (fun c => c == cColon) v, some rest)
 
+/-- the result of ParseCURIE from the two parts of `strings.SplitN(v, ":", 2)` -/
+def curieOfSplit (safe : Bool) : Str × Option Str → CURIE
+  | (a, some b) => ⟨safe, false, a, b⟩
+  | (a, none) => ⟨safe, true, [], a⟩
+
 /-- `curie.ParseCURIE`; `none` = `(CURIE{}, false)` -/
 def parseCURIE (v : Str) : Option CURIE :=
   if v = [] then none
@@ -249,9 +299,7 @@ def parseCURIE (v : Str) : Option CURIE :=
     let safe := v.head? = some cLBr ∧ v.getLast? = some cRBr
     -- `v[1 : len(v)-1]`; a one-byte string cannot be both '[' and ']', so the slice is in range
     let body := if safe then (v.drop 1).take (v.length - 2) else v
-    match splitColon body with
-    | (a, some b) => some ⟨safe, false, a, b⟩
-    | (a, none) => some ⟨safe, true, [], a⟩
+    some (curieOfSplit safe (splitColon body))
 
 /-! ## BaseIRI (iri/base_iri.go) -/
 
